@@ -137,7 +137,8 @@ def gen_model(rng):
             name = comp_name(rng, m.package, m.kinds)
             if complete(m.package, name) in used and sp != "duplicate-components":
                 continue
-            used.add(complete(m.package, name))
+            again = complete(m.package, name) in used     # a second declaration of a name (duplicate-components): it carries no MAIN / LAUNCHER of its own, so
+            used.add(complete(m.package, name))           # that 'MAIN and LAUNCHER not both on one component unless in one filter' also holds per NAME
             enabled = rng.choice((None, None, True))
             filters = []
             role = "none"
@@ -146,6 +147,8 @@ def gen_model(rng):
                 role = rng.choice(("launcher", "main-only", "launcher-only", "none", "none")) if nlaunch < lim else rng.choice(("main-only", "launcher-only", "none"))
                 if sp == "many-launchers" and nlaunch < lim and rng.random() < 0.7:
                     role = "launcher"
+                if again:
+                    role = "none"
                 if role == "launcher":
                     nlaunch += 1
                     if sp == "disabled-launcher" and rng.random() < 0.7:
